@@ -338,3 +338,6 @@ HALF_PREFIX = [{"k": "instantiate", "c": "hub", "sender": "owner2", "epoch": 2, 
                ex("owner2", "hub", {"k": "update_config", "dispatcher": "sink", "registry": "", "bsei": "", "stsei": "", "airdrop": "", "rewards": "", "updater": ""})]
 for _p in ("C10", "C11", "C20"):
     PLANS[_p]["drive"] = PLANS[_p]["drive"] + [dict(name="auth-half", menu=dict(MENU_AUTH, prefix=HALF_PREFIX), runs=(6, 150), len=18, consts=dict(MaxBatch=6, UserFunds=1000))]
+
+# unbounded amounts: the ledger operations (Ledger.tla, used by Cw20.tla) preserve sum(balances) = supply - Apalache, thorough tier
+PLANS["C18"]["apalache"] = [dict(module="Ledger_apa", inv="IndInv", timeout=1500, thorough_only=True)]
